@@ -78,8 +78,9 @@ vars == <<pts, eps, minPts, nb, core, y, k, i, stack, pc>>
 
 n == Len(pts)
 
-Injective(f) == \A a, b \in DOMAIN f : a # b => f[a] # f[b]
-Perms(S) == {f \in [1..Cardinality(S) -> S] : Injective(f)}
+RECURSIVE Perms(_)
+Perms(S) == IF S = {} THEN {<<>>}      \* all enumerations of S without repetition
+            ELSE UNION {{<<a>> \o p : p \in Perms(S \ {a})} : a \in S}
 RECURSIVE AscSeq(_)
 AscSeq(S) == IF S = {} THEN <<>>
              ELSE LET m == CHOOSE a \in S : \A b \in S : a <= b IN <<m>> \o AscSeq(S \ {m})
@@ -145,10 +146,13 @@ AbsorbBorder == /\ pc = "expand" /\ stack # <<>> /\ y[top] \in {UNDEF, QUEUED}
 (* noisy neighbours are pushed                                                *)
 ExpandCore == /\ pc = "expand" /\ stack # <<>> /\ y[top] \in {UNDEF, QUEUED}
               /\ Cardinality(nb[top]) >= minPts
-              /\ \E s \in Orders(nb[top]) :
-                    LET y1 == [y EXCEPT ![top] = k] IN
-                    /\ y' = [j \in 1..n |-> IF j \in nb[top] /\ y1[j] = UNDEF THEN QUEUED ELSE y1[j]]
-                    /\ stack' = rest \o SelectSeq(s, LAMBDA j : y1[j] \in {UNDEF, OUTLIER})
+              /\ LET y1 == [y EXCEPT ![top] = k] IN
+                 \* the rows pushed are those of the query result that are undefined or
+                 \* provisional noise, in the order the query returned them; the order of
+                 \* the other rows of the result is immaterial
+                 /\ \E s \in Orders({j \in nb[top] : y1[j] \in {UNDEF, OUTLIER}}) :
+                        stack' = rest \o s
+                 /\ y' = [j \in 1..n |-> IF j \in nb[top] /\ y1[j] = UNDEF THEN QUEUED ELSE y1[j]]
               /\ UNCHANGED <<pts, eps, minPts, nb, core, k, i, pc>>
 
 (* the popped row already belongs to a cluster (k itself or an earlier one) *)
